@@ -73,6 +73,9 @@ struct Outcome {
     std::string error;   // harness error (exception out of the engine)
 };
 
+extern "C" int __lsan_do_recoverable_leak_check() __attribute__((weak));
+inline bool& leakcheck_enabled() { static bool b = false; return b; }
+
 inline Outcome execute(Engine &eng, const Json &cs) {
     Outcome o;
     Chooser ch;
@@ -84,6 +87,8 @@ inline Outcome execute(Engine &eng, const Json &cs) {
     } catch (const std::exception &ex) {
         o.error = std::string("exception: ") + ex.what();
     }
+    if (leakcheck_enabled() && __lsan_do_recoverable_leak_check && __lsan_do_recoverable_leak_check())
+        o.r.fail("lsan:leak", "LeakSanitizer found memory that became unreachable during this run");
     for (auto &c : o.r.classes) ch.log.add_str(c);
     o.event_hash = ch.log.h;
     o.steps = ch.steps;
@@ -362,6 +367,7 @@ inline int worker_main(Engine &eng, int argc, char **argv) {
         if (s.rfind("--", 0) == 0) { if (k + 1 < argc && strncmp(argv[k + 1], "--", 2)) { a[s.substr(2)] = argv[k + 1]; k++; } else a[s.substr(2)] = "1"; }
     }
     setvbuf(stdout, nullptr, _IOLBF, 0);
+    if (a.count("leakcheck") || getenv("SIM_LEAKCHECK")) leakcheck_enabled() = true;
     eng.init();
     if (a.count("replay")) {
         Json rep = Json::parse_file(a["replay"]);
